@@ -277,17 +277,21 @@ def glue_keeps_state(O, rep):
     import re
     for which, kw in (("next", {"file": "data_row_iterator.rs"}), ("handle_io", {})):
         fn = O.find("::" + which, **kw)
-        eng = O.engine()
-        eng.keep_events(*KEEP)
-        eng.keep_events(r"handle_io$")
-        paths = O.explore(eng, fn)
+        paths = []
+        for sb in [None] + sorted(set(d for _, d in fn.back_edges())):      # a loop of its own would be a segment of its own
+            eng = O.engine()
+            eng.keep_events(*KEEP)
+            eng.keep_events(r"handle_io$")
+            if sb is not None:
+                eng.cut_blocks = {sb}
+            paths += [(eng, p) for p in O.explore(eng, fn, **({"start_bb": sb} if sb is not None else {}))]
         n = 0
-        for p in paths:
+        for eng, p in paths:
             eng.focus(p)
             if p.outcome == "panic":
                 rep.fail(O, p, "%s panics: %s" % (which, p.detail))
                 continue
-            if p.outcome != "return":
+            if p.outcome not in ("return", "cut"):
                 continue
             n += 1
             ws = [w for w in p.state.extra.get("writes", [])]
